@@ -282,6 +282,14 @@ impl World {
         }
     }
 
+    /// The most recent state dump of the broker (from the hook's idle records).
+    pub fn last_dump(&self) -> Option<aldrin_broker::verif::Dump> {
+        self.items.borrow().iter().rev().find_map(|it| match it {
+            Item::Hook(Record::Idle(d)) => Some((**d).clone()),
+            _ => None,
+        })
+    }
+
     pub fn panics(&self) -> Vec<(TaskId, String, String)> {
         self.exec.panicked()
     }
